@@ -562,8 +562,9 @@ static PARAMETERIZED_GATE_MATRICES: Lazy<HashMap<String, ParameterizedMatrix>> =
         (
             "RZ".to_string(),
             (|theta: Complex64| {
+                let (_0, _i) = (real!(0.0), imag!(1.0));
                 let t = theta / 2.0;
-                array![[t.cos(), -t.sin()], [t.sin(), t.cos()]]
+                array![[t.cos() - _i * t.sin(), _0], [_0, t.cos() + _i * t.sin()]]
             }) as ParameterizedMatrix,
         ),
         (
